@@ -53,6 +53,10 @@ pub struct Trigger {
     /// polled within this event (only generated for a module's single trigger whose work completes in the instant)
     #[serde(default)]
     pub then_shutdown: bool,
+    /// wake chains: the tasks alternate between tokio::spawn and spawn_local (a runtime task wakes a local task
+    /// and vice versa)
+    #[serde(default)]
+    pub mixed: bool,
 }
 
 #[derive(Debug, Clone, Serialize, Deserialize, PartialEq)]
@@ -161,6 +165,8 @@ impl Stormy {
     fn prepare(&mut self, ti: usize) {
         let (m, t) = (self.idx, self.triggers[ti].clone());
         let at = t.time_ns;
+        let (local, mixed) = (t.local, t.mixed);
+        let local_of = move |k: usize| if mixed { k % 2 == 1 } else { local };
         let armed = match &t.scenario {
             Scenario::Burst { .. } => Armed::None,
             Scenario::Notify { n } => {
@@ -198,7 +204,7 @@ impl Stormy {
                     for k in 0..*depth {
                         let (tx_next, rx_next) = oneshot::channel::<()>();
                         let my_rx = std::mem::replace(&mut rx, rx_next);
-                        let h = spawn_any(t.local, async move {
+                        let h = spawn_any(local_of(k), async move {
                             let _ = my_rx.await;
                             log(m, ti, k, at);
                             let _ = tx_next.send(());
@@ -214,7 +220,7 @@ impl Stormy {
                     for k in 0..*depth {
                         let (tx_next, rx_next) = mpsc::unbounded_channel::<()>();
                         let mut my_rx = std::mem::replace(&mut rx, rx_next);
-                        let h = spawn_any(t.local, async move {
+                        let h = spawn_any(local_of(k), async move {
                             let _ = my_rx.recv().await;
                             log(m, ti, k, at);
                             let _ = tx_next.send(());
@@ -232,7 +238,7 @@ impl Stormy {
                     for k in 0..*depth {
                         let next = Arc::new(Semaphore::new(0));
                         let (mine, nx) = (cur.clone(), next.clone());
-                        let h = spawn_any(t.local, async move {
+                        let h = spawn_any(local_of(k), async move {
                             let p = mine.acquire().await;
                             drop(p);
                             log(m, ti, k, at);
@@ -248,7 +254,7 @@ impl Stormy {
                 ChainKind::Join => {
                     // task 0 waits for the trigger; task k awaits the join handle of task k-1
                     let (first_tx, first_rx) = oneshot::channel::<()>();
-                    let mut prev: tokio::task::JoinHandle<()> = spawn_any(t.local, async move {
+                    let mut prev: tokio::task::JoinHandle<()> = spawn_any(local_of(0), async move {
                         let _ = first_rx.await;
                         log(m, ti, 0, at);
                         done();
@@ -256,7 +262,7 @@ impl Stormy {
                     self.spawned += 1;
                     for k in 1..*depth {
                         let p = prev;
-                        prev = spawn_any(t.local, async move {
+                        prev = spawn_any(local_of(k), async move {
                             let _ = p.await;
                             log(m, ti, k, at);
                             done();
@@ -515,7 +521,8 @@ pub fn gen_trigger(rng: &mut Rng, time_ns: u64, local: bool, big: bool) -> Trigg
     };
     // waiters must have been polled once before notify_waiters can reach them
     let time_ns = if matches!(scenario, Scenario::Notify { .. } | Scenario::Captured { .. }) && time_ns == 0 { SEC } else { time_ns };
-    let mut t = Trigger { time_ns, scenario, local, then_shutdown: false };
+    let mixed = !local && matches!(scenario, Scenario::Chain { .. }) && rng.chance(1, 3);
+    let mut t = Trigger { time_ns, scenario, local, then_shutdown: false, mixed };
     if local && !big && t.polls() > 55 {
         t.scenario = Scenario::Notify { n: 40 };
     }
@@ -605,6 +612,9 @@ pub fn cmd(args: &Args) -> Report {
             }
             if t.then_shutdown {
                 rep.count("scenarios_whose_handler_also_requests_shutdown", 1);
+            }
+            if t.mixed {
+                rep.count("wake_chains_alternating_between_runtime_and_local_tasks", 1);
             }
             if t.polls() > 61 {
                 rep.count("instants_needing_more_than_61_polls", 1);
